@@ -54,17 +54,17 @@ var (
 	Args   = ros.Args
 )
 
-func IsExist(err error) bool      { return ros.IsExist(err) }
-func IsNotExist(err error) bool   { return ros.IsNotExist(err) }
-func IsPermission(err error) bool { return ros.IsPermission(err) }
-func IsTimeout(err error) bool    { return ros.IsTimeout(err) }
-func Getenv(k string) string      { return ros.Getenv(k) }
+func IsExist(err error) bool            { return ros.IsExist(err) }
+func IsNotExist(err error) bool         { return ros.IsNotExist(err) }
+func IsPermission(err error) bool       { return ros.IsPermission(err) }
+func IsTimeout(err error) bool          { return ros.IsTimeout(err) }
+func Getenv(k string) string            { return ros.Getenv(k) }
 func LookupEnv(k string) (string, bool) { return ros.LookupEnv(k) }
-func Getpid() int                 { return 1 }
-func Exit(c int)                  { ros.Exit(c) }
-func TempDir() string             { return "/tmp" }
-func IsPathSeparator(c uint8) bool { return ros.IsPathSeparator(c) }
-func Hostname() (string, error)   { return "sim", nil }
+func Getpid() int                       { return 1 }
+func Exit(c int)                        { ros.Exit(c) }
+func TempDir() string                   { return "/tmp" }
+func IsPathSeparator(c uint8) bool      { return ros.IsPathSeparator(c) }
+func Hostname() (string, error)         { return "sim", nil }
 
 // File is the simulator's descriptor type. All methods accept a nil
 // receiver and answer ErrInvalid exactly as the real one does.
@@ -238,10 +238,10 @@ func WriteFile(name string, data []byte, perm FileMode) error {
 
 type dirEntry struct{ fi FileInfo }
 
-func (d dirEntry) Name() string               { return d.fi.Name() }
-func (d dirEntry) IsDir() bool                { return d.fi.IsDir() }
-func (d dirEntry) Type() FileMode             { return d.fi.Mode().Type() }
-func (d dirEntry) Info() (FileInfo, error)    { return d.fi, nil }
+func (d dirEntry) Name() string            { return d.fi.Name() }
+func (d dirEntry) IsDir() bool             { return d.fi.IsDir() }
+func (d dirEntry) Type() FileMode          { return d.fi.Mode().Type() }
+func (d dirEntry) Info() (FileInfo, error) { return d.fi, nil }
 
 // ReadDirInfos is shared with the ioutil shim.
 func ReadDirInfos(name string) ([]FileInfo, error) {
